@@ -8,12 +8,21 @@ V = os.path.dirname(os.path.dirname(os.path.abspath(__file__)))
 TECH = "symbolic execution of the real Python code over z3 terms (symx), SMT (z3) decides each obligation per path, counterexample replay"
 
 CLAIMED = {
+    "C01": dict(text="the chain that puts a grid point on its flux surface, link by link on the real code: followPerpendicular ordering for every position of the start psi (solve_ivp = flow contract), contour assembly slice of MeshRegion.__init__, fillRZ index map and X-point pinning, Newton acceptance test, refinePoint dispatch",
+                note="CONDITIONAL on the numerical kernels meeting their contracts (solve_ivp flow, psi a function); accuracy/convergence of integration, Newton and splines not decided; psivals lists <= 5, 3x3 assembly, nx=1 ny=2 fillRZ",
+                tech=TECH + "; uninterpreted functions for psi and the flow; AST slice"),
     "C02": dict(text="real calcMetric/geometry2/calcBeta/geometry1 run on symbolic reals; z3 (after exact rational-function normalisation) shows every metric identity, the closed forms, the displacement scalar products and the sign logic for all real inputs of the stated domain",
                 note="reals not IEEE doubles; DDX/calc_curvature/calcHy stubbed; hy, beta, Bp taken as given; 1x1 region (element-wise formulas); locally linear psi for the displacement obligations",
                 tech=TECH + "; QF_NRA"),
     "C03": dict(text="real geometry1 on an uninterpreted equilibrium, real interpolant closures, and AST slices of TokamakEquilibrium.__init__ (sign/2pi options, pressure extrapolation, profile-spline set-up and evaluation abscissa, scalars) plus the pressure-reflection closures of the real createRegionObjects, all on symbolic values; z3 decides each stated relation",
                 note="spline contract stubs; exp uninterpreted; bounded array sizes (2x2, 3 knots); that O/X-points are right is C19; spline accuracy not decided",
                 tech=TECH + "; AST slices of the current source"),
+    "C04": dict(text="mechanism of orthogonality on the real code: one followPerpendicular call per poloidal index with points stored at the radial index of their psi (shared with C01), integrated field = grad psi/|grad psi|^2, real calcBeta gives sinBeta=0 when the radial displacement is parallel to grad psi, orthogonal metric branch has no x-y off-diagonals",
+                note="'to the tolerance of the integration' and the second-order remainder are not decided; solve_ivp flow contract assumed; X-point cells excluded",
+                tech=TECH),
+    "C05": dict(text="real calcHy and calcPoloidalDistance on open and periodic region chains with symbolic contour distances; real FineContour.calcDistance (chord sum) and getDistance (interpolation between bracketing nodes); z3 decides each arc-length relation, positivity, monotonicity, continuity across joins, totals",
+                note="contour distances are symbolic strictly increasing arrays (that they are the true arc length, equaliseSpacing convergence and the quadratic convergence in Nfine are not decided); chain-internal regions start at distance 0; nx=1, ny=2",
+                tech=TECH),
     "C06": dict(text="real calcZShift on open and periodic region chains with quadrature/interpolation contract stubs and the real integrand closure; real DDX (with dx from the real geometry1) on a radial stack in all connection cases; real geometry2/calcMetric wiring; z3 decides zero at chain start, continuity across joins, ShiftAngle, integrand = Bt/(R|Bp|), DDX stencils and finiteness",
                 note="cumulative_trapezoid and interp1d replaced by contracts (T[0]=0, exact at nodes); 2-region chains, nx<=2, ny=1; trapezoid accuracy and 2*pi*q not decided",
                 tech=TECH),
